@@ -206,6 +206,11 @@ func (e *kvElection) Start(ctx context.Context) error {
 
 	e.ctx, e.cancel = context.WithCancel(ctx)
 
+	// A watcher of the previous run may still be on its way out (its run ended
+	// through the context, its Watch call or a read is still in flight): this
+	// run needs a watcher of its own.
+	e.watcherRunning.Store(false)
+
 	if e.connectionMonitor != nil {
 		if err := e.connectionMonitor.Start(ctx); err != nil {
 			e.cancel()
@@ -678,11 +683,21 @@ func (e *kvElection) becomeFollower() bool {
 
 	if e.ctx != nil && !e.watcherRunning.Load() {
 		e.watcherRunning.Store(true)
+		runCtx := e.ctx
 		e.wg.Add(1)
 		go func() {
-			defer e.watcherRunning.Store(false)
+			// The flag belongs to the run the watcher was started for: when the
+			// election has been started again in the meantime, that run has set
+			// the flag for its own watcher (or will), and this one leaves it alone.
+			defer func() {
+				e.mu.Lock()
+				if e.ctx == runCtx {
+					e.watcherRunning.Store(false)
+				}
+				e.mu.Unlock()
+			}()
 			defer e.wg.Done()
-			e.watchLoop(e.ctx)
+			e.watchLoop(runCtx)
 		}()
 	}
 
